@@ -140,15 +140,20 @@ func (c *caliper) update(seq Sequence, lnIdx int) {
 		return seq.GetXY(c.idx).Sub(offset)
 	}
 
+	// Advance around the ring until the projection starts to decrease. The
+	// projection can't keep increasing for a whole trip around the ring, so if
+	// no decrease is seen by then, the projections of all of the points are
+	// equal (within rounding, e.g. for a very thin ring) and any of them will
+	// do. Without the bound, such a ring would be circled forever.
 	d0 := pt().Dot(dir)
-	for {
+	for i := 0; i < n; i++ {
 		c.idx = (c.idx + 1) % n
 		d1 := pt().Dot(dir)
 		if d1 < d0 {
 			c.idx = (c.idx - 1 + n) % n
-			c.proj = pt().proj(dir)
 			break
 		}
 		d0 = d1
 	}
+	c.proj = pt().proj(dir)
 }
